@@ -71,6 +71,12 @@ type Wire struct {
 	eof      bool // EOF once everything in flight has been read
 	rclosed  bool // the reading end was closed locally
 
+	// glitches of the underlying connection (all allowed by io.Reader / io.Writer)
+	eofWithData bool   // the last bytes in flight come together with io.EOF
+	readGlitch  string // one-shot: "dataerr" = next data comes with ErrTimeout; "temperr" = (0, ErrTemporary) first
+	shortWrite  bool   // one-shot: the next Write of >= 2 bytes takes only a part and reports ErrTimeout
+	Glitched    int    // glitches delivered so far
+
 	nframed int64 // frames framed so far
 	Written int64 // bytes accepted
 	Served  int64 // bytes handed to the reader
@@ -94,6 +100,36 @@ func (w *Wire) SetCap(n int)       { w.mu.Lock(); w.cap = n; w.mu.Unlock() }
 func (w *Wire) SetCross(b bool)    { w.mu.Lock(); w.cross = b; w.mu.Unlock() }
 func (w *Wire) CloseWrite()        { w.mu.Lock(); w.eof = true; w.cond.Broadcast(); w.mu.Unlock() }
 func (w *Wire) closeRead()         { w.mu.Lock(); w.rclosed = true; w.cond.Broadcast(); w.mu.Unlock() }
+
+// SetEOFWithData: the Read that hands out the last bytes before the end of the stream reports io.EOF with them.
+func (w *Wire) SetEOFWithData(b bool) { w.mu.Lock(); w.eofWithData = b; w.mu.Unlock() }
+
+// InjectRead arms a one-shot glitch of the next Read: "dataerr" (its bytes arrive together with a timeout
+// error; the stream goes on afterwards) or "temperr" (it fails with a temporary error before any byte; the
+// stream goes on afterwards).
+func (w *Wire) InjectRead(kind string) { w.mu.Lock(); w.readGlitch = kind; w.mu.Unlock() }
+
+// ReadGlitchPending reports whether an armed read glitch has not been delivered yet.
+func (w *Wire) ReadGlitchPending() bool { w.mu.Lock(); defer w.mu.Unlock(); return w.readGlitch != "" }
+
+// InjectShortWrite arms a one-shot short write: the next Write of at least 2 bytes accepts only the first
+// half and reports a timeout error.
+func (w *Wire) InjectShortWrite() { w.mu.Lock(); w.shortWrite = true; w.mu.Unlock() }
+
+// glitchErr is a transient error of the underlying connection (net.Error, Timeout and Temporary).
+type glitchErr struct{ msg string }
+
+func (e *glitchErr) Error() string   { return e.msg }
+func (e *glitchErr) Timeout() bool   { return true }
+func (e *glitchErr) Temporary() bool { return true }
+
+var (
+	ErrTimeout   error = &glitchErr{"vfc02: i/o timeout (transient, injected)"}
+	ErrTemporary error = &glitchErr{"vfc02: temporary error (transient, injected)"}
+)
+
+// IsGlitch reports whether err is (or wraps) an injected transient error.
+func IsGlitch(err error) bool { return errors.Is(err, ErrTimeout) || errors.Is(err, ErrTemporary) }
 
 func (w *Wire) reframe() {
 	for len(w.tail) > 0 {
@@ -119,6 +155,13 @@ func (w *Wire) Write(p []byte) (int, error) {
 	if len(p) == 0 {
 		return 0, nil
 	}
+	var werr error
+	if w.shortWrite && len(p) >= 2 {
+		w.shortWrite = false
+		w.Glitched++
+		p = p[:len(p)/2]
+		werr = ErrTimeout
+	}
 	w.Written += int64(len(p))
 	if w.framer == nil && len(w.tail) == 0 {
 		w.frames = append(w.frames, append([]byte(nil), p...))
@@ -128,7 +171,7 @@ func (w *Wire) Write(p []byte) (int, error) {
 		w.reframe()
 	}
 	w.cond.Broadcast()
-	return len(p), nil
+	return len(p), werr
 }
 
 func (w *Wire) Read(p []byte) (int, error) {
@@ -158,6 +201,11 @@ func (w *Wire) Read(p []byte) (int, error) {
 	if len(p) == 0 {
 		return 0, nil
 	}
+	if w.readGlitch == "temperr" {
+		w.readGlitch = ""
+		w.Glitched++
+		return 0, ErrTemporary
+	}
 	lim := len(p)
 	if w.cap > 0 && lim > w.cap {
 		lim = w.cap
@@ -175,6 +223,15 @@ func (w *Wire) Read(p []byte) (int, error) {
 		n += c
 	}
 	w.Served += int64(n)
+	if w.readGlitch == "dataerr" && n > 0 {
+		w.readGlitch = ""
+		w.Glitched++
+		return n, ErrTimeout
+	}
+	if w.eofWithData && w.eof && n > 0 && len(w.cur) == 0 && len(w.frames) == 0 && len(w.tail) == 0 {
+		w.Glitched++
+		return n, io.EOF
+	}
 	return n, nil
 }
 
